@@ -12,7 +12,7 @@
    auto_on          : auto_determine_solver on a stored matrix = Model/AutoSolver.v fed with these predicates. *)
 From Coq Require Import ZArith QArith List Bool.
 From Pymoto Require Import Base.CQMat Model.AutoSolver Model.MatrixChecks Proofs.AutoSolverP Proofs.MatrixChecksP.
-From Pymoto Require Import Model.Grid Model.MGInterp Proofs.MGInterpP.
+From Pymoto Require Import Model.Grid Model.MGInterp Proofs.MGInterpP Model.CGExit.
 Import ListNotations.
 
 (* the DIA fast path `len(A.offsets) == 1 and A.offsets[0] == 0` accepts exactly the offsets array [0] ... *)
@@ -155,3 +155,11 @@ Example C05_mg_interp_nonvacuous :
 Proof.
   split; [exists 2%Z, 1%Z, 0%Z; cbn; repeat split; try reflexivity; discriminate|]. vm_compute. intuition.
 Qed.
+
+(* ------------------------------------------------------------------ the convergence test of CG.solve (Model/CGExit.v):
+   non-vacuity of C05_cg_exit_sound_per_column / C05_cg_zero_rhs (Props/C05.v): a block with a zero column *)
+Example C05_cg_exit_test_nonvacuous :
+  exit_test (1#10) [0; 1#20]%Q [0; 1]%Q = true /\ exit_test (1#10) [1#5; 0]%Q [0; 1]%Q = false /\
+  exit_test (1#10) [1#20; 1#5]%Q [0; 4]%Q = true /\
+  columns_bound (1#10) [1#20; 1#5]%Q [0; 4]%Q /\ exit_test (1#10) (zeros 3) (zeros 3) = true.
+Proof. vm_compute. repeat split; discriminate. Qed.
